@@ -2,42 +2,117 @@ package diskstore
 
 import (
 	"bytes"
+	"errors"
 	"fmt"
 	"sync"
 
 	"go.etcd.io/bbolt"
 )
 
+var errTxDone = errors.New("bucket used after its transaction has ended")
+
+/* A transaction callback may return, for example on the first error of a
+ * pipeline, while goroutines it started still hold buckets of the transaction.
+ * Bbolt objects must not be touched once the transaction is committed or rolled
+ * back, doing so crashes the process. The guard lets the bucket operations in
+ * flight finish and makes any later one fail instead. */
+type txGuard struct {
+	mu     sync.Mutex
+	cond   *sync.Cond
+	active int
+	done   bool
+}
+
+func newTxGuard() *txGuard {
+	g := &txGuard{}
+	g.cond = sync.NewCond(&g.mu)
+	return g
+}
+
+func (g *txGuard) enter() bool {
+	g.mu.Lock()
+	defer g.mu.Unlock()
+	if g.done {
+		return false
+	}
+	g.active++
+	return true
+}
+
+func (g *txGuard) exit() {
+	g.mu.Lock()
+	g.active--
+	if g.active == 0 {
+		g.cond.Broadcast()
+	}
+	g.mu.Unlock()
+}
+
+// Refuses new operations and waits for the ones in flight
+func (g *txGuard) finish() {
+	g.mu.Lock()
+	g.done = true
+	for g.active > 0 {
+		g.cond.Wait()
+	}
+	g.mu.Unlock()
+}
+
 type bboltBucket struct {
-	bb *bbolt.Bucket
+	bb    *bbolt.Bucket
+	guard *txGuard
 }
 
 func (b bboltBucket) IsReadOnly() bool {
+	if !b.guard.enter() {
+		return true
+	}
+	defer b.guard.exit()
 	return !b.bb.Writable()
 }
 
 func (b bboltBucket) Get(k []byte) []byte {
+	if !b.guard.enter() {
+		return nil
+	}
+	defer b.guard.exit()
 	// Not huge fan of this b.bb business but it's explicit.
 	return b.bb.Get(k)
 }
 
 func (b bboltBucket) Put(k, v []byte) error {
+	if !b.guard.enter() {
+		return errTxDone
+	}
+	defer b.guard.exit()
 	// We don't check for read-only here because bbolt will return an error if
 	// the bucket is not writable already.
 	return b.bb.Put(k, v)
 }
 
 func (b bboltBucket) Delete(k []byte) error {
+	if !b.guard.enter() {
+		return errTxDone
+	}
+	defer b.guard.exit()
 	return b.bb.Delete(k)
 }
 
 func (b bboltBucket) ForEach(f func(k, v []byte) error) error {
+	if !b.guard.enter() {
+		return errTxDone
+	}
+	defer b.guard.exit()
 	return b.bb.ForEach(func(k, v []byte) error {
 		return f(k, v)
 	})
 }
 
 func (b bboltBucket) PrefixScan(prefix []byte, f func(k, v []byte) error) error {
+	if !b.guard.enter() {
+		return errTxDone
+	}
+	defer b.guard.exit()
 	c := b.bb.Cursor()
 	for k, v := c.Seek(prefix); k != nil && bytes.HasPrefix(k, prefix); k, v = c.Next() {
 		if err := f(k, v); err != nil {
@@ -48,6 +123,10 @@ func (b bboltBucket) PrefixScan(prefix []byte, f func(k, v []byte) error) error 
 }
 
 func (b bboltBucket) RangeScan(start, end []byte, inclusive bool, f func(k, v []byte) error) error {
+	if !b.guard.enter() {
+		return errTxDone
+	}
+	defer b.guard.exit()
 	c := b.bb.Cursor()
 	// ---------------------------
 	var k, v []byte
@@ -85,6 +164,7 @@ func (b bboltBucket) RangeScan(start, end []byte, inclusive bool, f func(k, v []
 
 type bboltBucketManager struct {
 	tx         *bbolt.Tx
+	guard      *txGuard
 	isReadOnly bool
 	// bbolt objects within a transaction are not thread safe but we want
 	// multiple go routines to potentially create buckets
@@ -94,6 +174,10 @@ type bboltBucketManager struct {
 func (bm *bboltBucketManager) Get(bucketName string) (Bucket, error) {
 	bm.mu.Lock()
 	defer bm.mu.Unlock()
+	if !bm.guard.enter() {
+		return nil, errTxDone
+	}
+	defer bm.guard.exit()
 	if bm.isReadOnly {
 		bucket := bm.tx.Bucket([]byte(bucketName))
 		if bucket == nil {
@@ -103,7 +187,7 @@ func (bm *bboltBucketManager) Get(bucketName string) (Bucket, error) {
 			return emptyReadOnlyBucket{}, nil
 			// return nil, fmt.Errorf("bucket %s does not exist", bucketName)
 		}
-		return bboltBucket{bb: bucket}, nil
+		return bboltBucket{bb: bucket, guard: bm.guard}, nil
 	}
 	// This potentially modifies the b+ tree, so the lock is necessary avoid
 	// race condition on the tx which is not thread safe.
@@ -111,7 +195,7 @@ func (bm *bboltBucketManager) Get(bucketName string) (Bucket, error) {
 	if err != nil {
 		return nil, fmt.Errorf("could not create bucket %s: %w", bucketName, err)
 	}
-	return bboltBucket{bb: bucket}, nil
+	return bboltBucket{bb: bucket, guard: bm.guard}, nil
 }
 
 func (bm *bboltBucketManager) Delete(bucketName string) error {
@@ -120,6 +204,10 @@ func (bm *bboltBucketManager) Delete(bucketName string) error {
 	if bm.isReadOnly {
 		return fmt.Errorf("cannot delete bucket %s in read-only transaction", bucketName)
 	}
+	if !bm.guard.enter() {
+		return errTxDone
+	}
+	defer bm.guard.exit()
 	return bm.tx.DeleteBucket([]byte(bucketName))
 }
 
@@ -135,14 +223,16 @@ func (ds bboltDiskStore) Path() string {
 
 func (ds bboltDiskStore) Read(f func(BucketManager) error) error {
 	return ds.bboltDB.View(func(tx *bbolt.Tx) error {
-		bm := &bboltBucketManager{tx: tx, isReadOnly: true}
+		bm := &bboltBucketManager{tx: tx, guard: newTxGuard(), isReadOnly: true}
+		defer bm.guard.finish()
 		return f(bm)
 	})
 }
 
 func (ds bboltDiskStore) Write(f func(BucketManager) error) error {
 	return ds.bboltDB.Update(func(tx *bbolt.Tx) error {
-		bm := &bboltBucketManager{tx: tx}
+		bm := &bboltBucketManager{tx: tx, guard: newTxGuard()}
+		defer bm.guard.finish()
 		return f(bm)
 	})
 }
